@@ -288,6 +288,30 @@ theorem argminFrom_spec (p : List K) : ∀ (pts : List (List K)) (i0 j : Nat) (d
         · exact le_of_lt (lt_of_not_ge hle)
         · exact hmin q' hq'
 
+theorem nearestAxis_ge_head : ∀ (knots : List K) (a x : K) (i : Nat), StrictInc (a :: knots) →
+    nearestAxis (a :: knots) x = some i → a ≤ x := by
+  intro knots
+  induction knots with
+  | nil => intro a x i _ h; simp [nearestAxis] at h
+  | cons b rest ih =>
+    intro a x i hs h
+    by_cases hc : a ≤ x ∧ x ≤ b
+    · exact hc.1
+    · have hc' : (decide (a ≤ x) && decide (x ≤ b)) = false := by
+        simp only [Bool.and_eq_false_iff, decide_eq_false_iff_not]; tauto
+      simp only [nearestAxis, hc'] at h
+      cases hr : nearestAxis (b :: rest) x with
+      | none => rw [hr] at h; simp at h
+      | some j => exact le_trans (le_of_lt hs.1) (ih b x j hs.2 hr)
+
+/-- the grid point with per-axis indices `idx` -/
+def pointAt : List (List K) → List Nat → List K
+  | ax :: axes, i :: idx => ax.getD i 0 :: pointAt axes idx
+  | _, _ => []
+
+theorem dist2_cons (t x : K) (q p : List K) : dist2 (t :: q) (x :: p) = (t - x) * (t - x) + dist2 q p := by
+  simp [dist2]
+
 /-! ### supersampling -/
 
 /-- the dithers all have `D` coordinates and add up to the zero vector -/
